@@ -43,6 +43,12 @@ int vnacal_set_dprecision(vnacal_t *vcp, int precision)
 		"vnacal_set_dprecision: precision must be at least 1");
 	return -1;
     }
+    if (precision > VNACAL_MAX_PRECISION) {
+	_vnacal_error(vcp, VNAERR_USAGE,
+		"vnacal_set_dprecision: precision cannot exceed %d",
+		VNACAL_MAX_PRECISION);
+	return -1;
+    }
     vcp->vc_dprecision = precision;
     return 0;
 }
